@@ -53,6 +53,27 @@ CLAIMED = {
             "Skeleton contract proof over serveConnCounted: a ghost flag 'multipart temp files may exist' is cleared by Request.Reset/releaseCtx on every path before the next request head is read and before return (hijack/timeout excepted).",
             "Trusts that Request.Reset removes multipart files (ResetBody -> RemoveMultipartFormFiles, mime/multipart external); round trip not decided.",
             "deductive verification in skeleton mode: loop invariant over a ghost flag"),
+
+    "C04": ("proof",
+            "Skeleton contract proof over transport.RoundTrip and the closer of a streamed response body: a connection is returned to the pool only after the response was read completely "
+            "(ReadLimitBody succeeded, or the stream was read to the end of its framing) and every acquired connection is released or closed exactly once.",
+            "Sequential mechanism only: PipelineClient queues and all concurrency/timeout interleavings are not decided. Trusts declared ghost effects of callees.",
+            "deductive verification in skeleton mode: preconditions at ReleaseConn over ghost state"),
+    "C19": ("proof",
+            "Skeleton contract proof over HostClient.Do, doNonNilReqResp, transport.RoundTrip and isIdempotent: ghost counter of transmissions bounded by MaxIdemponentCallAttempts (default 5), "
+            "at most one transmission for body streams and for non-idempotent methods without retry callbacks, no retry after ErrBodyTooLarge, no transmission after the deadline, deadline moved only on resetTimeout.",
+            "Assumes c.do does not change the request method or body-stream status; the retry callbacks are arbitrary.",
+            "deductive verification in skeleton mode: loop invariant sent == attempts"),
+    "C20": ("proof",
+            "Contract proof over doRequestFollowRedirects (ghost: credentials present / target trusted / transmissions), stripSensitiveHeadersOnRedirect (all six headers deleted), "
+            "shouldStripSensitiveHeadersOnRedirect and the exact-mode isDomainOrSubdomainBytes (same host or '.'+parent suffix only, never IP literals), 303 and 301/302 method rules.",
+            "bytes.EqualFold is specified for ASCII only; that the host checked is the host dialled rests on URI serialisation (C27, not decided).",
+            "deductive verification: skeleton ghost invariant + exact contract of the domain test"),
+    "C21": ("proof",
+            "Skeleton contract proof over Client.Do, Client.hostClient, HostClient.doNonNilReqResp, dialHostHard and dialAddr: the transport is reached only when IsTLS equals 'scheme is https', "
+            "the host-client map and the new HostClient are chosen by that flag, TLS dials return a crypto/tls-wrapped connection using the config cached for the dialled address.",
+            "A custom dialer's connection with a Handshake() method is taken to be TLS (documented convention); ConfigureClient callbacks may change IsTLS, which is why the check in doNonNilReqResp carries the property.",
+            "deductive verification in skeleton mode: preconditions at the transport / dial calls"),
 }
 
 NOT_APPLICABLE = {
